@@ -668,10 +668,20 @@ func c11RuleG(w *World, r *Report) {
 		installed := map[string]bool{}
 		for _, ic := range calls {
 			f := ic.call.Common().StaticCallee()
-			if f == nil || f.Name() != "AddErrorListener" || len(ic.call.Common().Args) < 2 {
+			var recvArg, lstArg ssa.Value
+			switch {
+			case f != nil && f.Name() == "AddErrorListener" && len(ic.call.Common().Args) >= 2:
+				recvArg, lstArg = ic.call.Common().Args[0], ic.call.Common().Args[1]
+			case ic.call.Common().IsInvoke() && ic.call.Common().Method.Name() == "AddErrorListener" && len(ic.call.Common().Args) >= 1:
+				// through the Recognizer interface (a helper or closure that takes either recogniser)
+				recvArg, lstArg = ic.call.Common().Value, ic.call.Common().Args[0]
+			default:
 				continue
 			}
-			recv := valueRoot(resolveParam(ic.call.Common().Args[0], ic.bs))
+			recv := valueRoot(resolveParam(recvArg, ic.bs))
+			if mi, ok := stripIdentity(resolveParam(recvArg, ic.bs)).(*ssa.MakeInterface); ok {
+				recv = valueRoot(mi.X)
+			}
 			kind := ""
 			switch {
 			case typeIs(recv.Type(), grammarPath, "PacketDslLexer"):
@@ -682,9 +692,9 @@ func c11RuleG(w *World, r *Report) {
 			if kind == "" {
 				continue
 			}
-			l := stripIdentity(resolveParam(ic.call.Common().Args[1], ic.bs))
+			l := stripIdentity(resolveParam(lstArg, ic.bs))
 			for gl := range gateListeners {
-				if stripIdentity(gl) == l {
+				if stripIdentity(gl) == l || (cellOf(gl) != nil && cellOf(gl) == cellOf(l)) {
 					installed[kind] = true
 				}
 				// the gate's listener is what an installing helper returned
@@ -2047,6 +2057,9 @@ func c11RuleL(w *World, r *Report, subjects []*ssa.Function, derefs map[*ssa.Fun
 				if why != "" && presenceGuarded(fn, x) {
 					why = ""
 				}
+				if why != "" && w.coInserted(x) {
+					why = "" // the key is the name of an element of a list that is only ever extended together with this map
+				}
 				if why != "" && vlook[normMapDesc(x.X)+"|"+keyPath(x.Index)] {
 					why = "" // the same name is resolved with a diagnostic on a miss in the parse phase
 				}
@@ -2891,4 +2904,189 @@ func lengthEstablished(b *ssa.BasicBlock, base ssa.Value, need int64) string {
 		}
 	}
 	return ""
+}
+
+// coInserted: the lookup m[e.Name] cannot miss because m and the list e was taken from are members of one record that are only
+// extended together: every store that appends an element v to the list is accompanied, in the same block, by m[v.Name] = ...
+func (w *World) coInserted(lk *ssa.Lookup) bool {
+	// the map: a member of a record
+	mld, ok := stripIdentity(lk.X).(*ssa.UnOp)
+	if !ok || mld.Op != token.MUL {
+		return false
+	}
+	mfa, ok := mld.X.(*ssa.FieldAddr)
+	if !ok {
+		return false
+	}
+	recT, mName, _, _ := fieldOf(mfa)
+	recType := mfa.X.Type()
+	// the key: <elem>.Name with elem an element of a slice member of the same record type
+	kld, ok := stripIdentity(lk.Index).(*ssa.UnOp)
+	if !ok || kld.Op != token.MUL {
+		return false
+	}
+	kfa, ok := kld.X.(*ssa.FieldAddr)
+	if !ok {
+		return false
+	}
+	if _, kn, _, _ := fieldOf(kfa); kn != "Name" {
+		return false
+	}
+	elem := stripIdentity(kfa.X)
+	sName, ok := w.elemOfRecordSlice(elem, recType, 0)
+	if !ok {
+		return false
+	}
+	_ = recT
+	// every append to <record>.sName comes with <record>.mName[v.Name] = ...
+	appends, paired := 0, 0
+	for _, fn := range w.srcFuncs {
+		forEachInstr(fn, func(b *ssa.BasicBlock, ins ssa.Instruction) {
+			st, ok := ins.(*ssa.Store)
+			if !ok {
+				return
+			}
+			fa, ok := st.Addr.(*ssa.FieldAddr)
+			if !ok || !types.Identical(fa.X.Type(), recType) {
+				return
+			}
+			if _, n, _, _ := fieldOf(fa); n != sName {
+				return
+			}
+			call, ok := stripIdentity(st.Val).(*ssa.Call)
+			if !ok {
+				if _, isConst := st.Val.(*ssa.Const); isConst {
+					return // reset to nil / empty
+				}
+				appends++ // some other assignment: not understood
+				return
+			}
+			bi, ok := call.Call.Value.(*ssa.Builtin)
+			if !ok || bi.Name() != "append" || len(call.Call.Args) != 2 {
+				appends++
+				return
+			}
+			appends++
+			vals := variadicOperands(call.Call.Args[1])
+			if len(vals) != 1 || vals[0] == nil {
+				return
+			}
+			v := stripIdentity(vals[0])
+			for _, i2 := range b.Instrs {
+				mu, ok := i2.(*ssa.MapUpdate)
+				if !ok {
+					continue
+				}
+				l2, ok := stripIdentity(mu.Map).(*ssa.UnOp)
+				if !ok || l2.Op != token.MUL {
+					continue
+				}
+				f2, ok := l2.X.(*ssa.FieldAddr)
+				if !ok || !types.Identical(f2.X.Type(), recType) {
+					continue
+				}
+				if _, n2, _, _ := fieldOf(f2); n2 != mName {
+					continue
+				}
+				k2, ok := stripIdentity(mu.Key).(*ssa.UnOp)
+				if !ok || k2.Op != token.MUL {
+					continue
+				}
+				kf2, ok := k2.X.(*ssa.FieldAddr)
+				if !ok {
+					continue
+				}
+				if _, kn2, _, _ := fieldOf(kf2); kn2 == "Name" && stripIdentity(kf2.X) == v {
+					paired++
+					return
+				}
+			}
+		})
+	}
+	return appends > 0 && appends == paired
+}
+
+// elemOfRecordSlice: v is an element of the slice member <name> of a record of type recType (directly, or - for a parameter - at
+// every call site).
+func (w *World) elemOfRecordSlice(v ssa.Value, recType types.Type, depth int) (string, bool) {
+	v = stripIdentity(v)
+	if p, isParam := v.(*ssa.Parameter); isParam && depth < 3 {
+		fn := p.Parent()
+		idx := -1
+		for i, q := range fn.Params {
+			if q == p {
+				idx = i
+			}
+		}
+		name, n := "", 0
+		good := true
+		for _, g := range w.srcFuncs {
+			forEachInstr(g, func(_ *ssa.BasicBlock, ins ssa.Instruction) {
+				c, ok := ins.(ssa.CallInstruction)
+				if !ok || c.Common().StaticCallee() != fn || idx < 0 || idx >= len(c.Common().Args) {
+					return
+				}
+				n++
+				s, ok := w.elemOfRecordSlice(c.Common().Args[idx], recType, depth+1)
+				if !ok || (name != "" && s != name) {
+					good = false
+					return
+				}
+				name = s
+			})
+		}
+		return name, good && n > 0
+	}
+	eld, ok := v.(*ssa.UnOp)
+	if !ok || eld.Op != token.MUL {
+		return "", false
+	}
+	ia, ok := eld.X.(*ssa.IndexAddr)
+	if !ok {
+		return "", false
+	}
+	sld, ok := stripIdentity(ia.X).(*ssa.UnOp)
+	if !ok || sld.Op != token.MUL {
+		return "", false
+	}
+	sfa, ok := sld.X.(*ssa.FieldAddr)
+	if !ok || !types.Identical(sfa.X.Type(), recType) {
+		return "", false
+	}
+	_, sName, _, _ := fieldOf(sfa)
+	return sName, true
+}
+
+// cellOf: the variable cell a value was loaded from - a local captured by reference (Alloc) or, inside a closure, the captured
+// variable resolved to the enclosing function's cell.
+func cellOf(v ssa.Value) *ssa.Alloc {
+	ld, ok := stripIdentity(v).(*ssa.UnOp)
+	if !ok || ld.Op != token.MUL {
+		return nil
+	}
+	switch x := ld.X.(type) {
+	case *ssa.Alloc:
+		return x
+	case *ssa.FreeVar:
+		g := x.Parent()
+		if g == nil || g.Parent() == nil {
+			return nil
+		}
+		idx := -1
+		for j, fv := range g.FreeVars {
+			if fv == x {
+				idx = j
+			}
+		}
+		var cell *ssa.Alloc
+		forEachInstr(g.Parent(), func(_ *ssa.BasicBlock, ins ssa.Instruction) {
+			if mc, ok := ins.(*ssa.MakeClosure); ok && mc.Fn == ssa.Value(g) && idx >= 0 && idx < len(mc.Bindings) {
+				if al, ok := mc.Bindings[idx].(*ssa.Alloc); ok {
+					cell = al
+				}
+			}
+		})
+		return cell
+	}
+	return nil
 }
